@@ -26,6 +26,7 @@ def handlers : List (String × (Case → String)) := [
   ("op", Drivers.Op.run),
   ("chain", Drivers.Chain.runChain),
   ("reuse", Drivers.Chain.runReuse),
+  ("reusemulti", Drivers.Chain.runReuseMulti),
   ("cancel", Drivers.Cancel.run),
   ("overlap", Drivers.Overlap.run),
   ("leak", Drivers.Cancel.runLeak),
